@@ -9,9 +9,9 @@ CONSTANTS
  FixNifty = TRUE
  AtomicAdopt = TRUE
  RefreshExpected = TRUE
- Free = 1
- Getters = {2,3,4}
- Releasers = {}
+ Free = 0
+ Getters = {2,3}
+ Releasers = {5}
 VIEW GenView
 INVARIANT NoShare
 INVARIANT ListComplete
